@@ -1,0 +1,13 @@
+//go:build !verif
+
+package risc
+
+// verifState is empty in the default build; see verif_on.go.
+type verifState struct{}
+
+// VerifTick is a no-op in the default build. Under the verif build tag it is
+// called once per iteration of every loop of every Run.
+func (ctx *Context) VerifTick(cycle int) {}
+
+// VerifProbe is a no-op in the default build.
+func (ctx *Context) VerifProbe(kind uint8) {}
